@@ -767,18 +767,47 @@ func (c *fnCtx) invoke(in ssa.Instruction, cc *ssa.CallCommon, args []*Val, rt t
 	}
 	switch {
 	case strings.HasSuffix(rtyp, "gopacket.SerializeBuffer") && (name == "PrependBytes" || name == "AppendBytes"):
-		c.addObl("pre", pos, "(>= "+args[0].T[0]+" 0)", "")
+		// Interface contract of SerializeBuffer (C18's contracts lifted to the interface), over the abstract view
+		// (array, offset, length) kept in ghost state per buffer: the call yields a window of exactly n bytes with
+		// unspecified contents on a new array whose other bytes are the old view (prepend: after the window,
+		// append: before it). Modelling every call as a reallocation ignores aliasing of slices obtained earlier
+		// from Bytes() with the new window; code that writes through such a slice afterwards is not covered.
+		n := args[0].T[0]
+		c.addObl("pre", pos, "(>= "+n+" 0)", "")
+		oa, oo, ol := c.sbView(recv.T[1])
 		fresh := c.newRef("sbuf")
 		r := c.freshVal(rt, "pb")
 		sl, er := r.F[0], r.F[1]
-		// the returned window is memory owned by the buffer: not the decoder input, unspecified contents
-		c.em.assert(fmt.Sprintf("(=> (= %s 0) (and (= %s %s) (= %s %s) (= %s 0)))", er.T[0], sl.T[2], args[0].T[0], sl.T[0], fresh, sl.T[1]))
-		c.havocByteArray(fresh)
-		c.sbEvent(name, args[0].T[0], r)
+		ok := "(= " + er.T[0] + " 0)"
+		winOff, oldAt := "0", n // prepend: window first, old view follows at n
+		if name == "AppendBytes" {
+			winOff, oldAt = ol, "0"
+		}
+		c.em.assert(fmt.Sprintf("(=> %s (and (= %s %s) (= %s %s) (= %s %s) (= %s %s)))", ok, sl.T[2], n, sl.T[3], n, sl.T[0], fresh, sl.T[1], winOff))
+		k := elemKey(types.Typ[types.Uint8])
+		c.em.regKey(k, "Int", true)
+		h := c.heapGet(k)
+		a2 := c.em.fresh("Asb")
+		c.em.decl(a2, "(Array Int Int)")
+		c.em.assert(fmt.Sprintf("(forall ((k Int)) (! (and (<= 0 (select %s k)) (<= (select %s k) 255) (=> (and (<= %s k) (< k (+ %s %s))) (= (select %s k) (select (select %s %s) (+ %s (- k %s)))))) :pattern ((select %s k))))",
+			a2, a2, oldAt, oldAt, ol, a2, h, oa, oo, oldAt, a2))
+		c.heapSet(k, c.em.define("Hsb", c.em.keySort(k), "(store "+h+" "+fresh+" "+a2+")"))
+		c.em.assert(fmt.Sprintf("(=> %s (= (atype %s) %d))", c.reach[c.curB], fresh, c.eng.elemTypeID(types.Typ[types.Uint8])))
+		c.sbSet(recv.T[1], ok, fresh, "0", "(+ "+ol+" "+n+")")
+		c.sbEvent(name, n, r)
 		return r
 	case strings.HasSuffix(rtyp, "gopacket.SerializeBuffer") && name == "Bytes":
-		r := c.freshVal(rt, "sbytes")
+		oa, oo, ol := c.sbView(recv.T[1])
+		cp := c.em.fresh("sbcap")
+		c.em.decl(cp, "Int")
+		c.assertHere(fmt.Sprintf("(and (>= %s %s) (<= (+ %s %s) %s))", cp, ol, oo, cp, maxLen))
+		r := &Val{K: KSlice, T: []string{oa, oo, ol, cp}}
 		c.sbEvent(name, "", r)
+		return r
+	case strings.HasSuffix(rtyp, "gopacket.SerializeBuffer") && name == "Clear":
+		oa, oo, _ := c.sbView(recv.T[1])
+		r := c.freshVal(rt, "clr")
+		c.sbSet(recv.T[1], "(= "+r.T[0]+" 0)", oa, oo, "0")
 		return r
 	case strings.HasSuffix(rtyp, "gopacket.PacketBuilder"), strings.HasSuffix(rtyp, "gopacket.DecodeFeedback"):
 		c.pbEvent(in, name, cc, args)
@@ -806,6 +835,26 @@ func (c *fnCtx) havocByteArray(arr string) {
 	c.em.decl(a2, "(Array Int Int)")
 	c.em.assert(fmt.Sprintf("(forall ((k Int)) (! (and (<= 0 (select %s k)) (<= (select %s k) 255)) :pattern ((select %s k))))", a2, a2, a2))
 	c.heapSet(k, c.em.define("Hnw", c.em.keySort(k), "(store "+h+" "+arr+" "+a2+")"))
+}
+
+// sbView: the abstract view (array, offset, length) of the serialize buffer object ref.
+func (c *fnCtx) sbView(ref string) (arr, off, ln string) {
+	get := func(key string) string {
+		c.em.regKey(key, "Int", false)
+		return c.em.define("sbv", "Int", "(select "+c.heapGet(key)+" "+ref+")")
+	}
+	arr, off, ln = get("ghost:sbArr"), get("ghost:sbOff"), get("ghost:sbLen")
+	c.assertHere(fmt.Sprintf("(and (<= 0 %s) (<= 0 %s) (<= (+ %s %s) %s) (=> (not (= %s 0)) (= (atype %s) %d)))", off, ln, off, ln, maxLen, arr, arr, c.eng.elemTypeID(types.Typ[types.Uint8])))
+	return
+}
+
+// sbSet updates the view of buffer ref when cond holds (the call succeeded).
+func (c *fnCtx) sbSet(ref, cond, arr, off, ln string) {
+	for _, kv := range [][2]string{{"ghost:sbArr", arr}, {"ghost:sbOff", off}, {"ghost:sbLen", ln}} {
+		c.em.regKey(kv[0], "Int", false)
+		h := c.heapGet(kv[0])
+		c.heapSet(kv[0], c.em.define("Hsbv", "(Array Int Int)", fmt.Sprintf("(store %s %s (ite %s %s (select %s %s)))", h, ref, cond, kv[1], h, ref)))
+	}
 }
 
 // ifaceNonNil: interface-typed parameters and receivers are assumed non-nil (listed assumption); results of
